@@ -19,7 +19,7 @@ Pairs == {p \in Objs \X Objs : p[1] # p[2]}
 (* effective direction: OFB and the counter modes are one keystream function in both directions *)
 EffDir(ob) == IF Family(ob.kind) \in ({"ofb"} \cup SeekKinds) THEN "ks" ELSE ob.dir
 SameFn(a, b) == a.c = b.c /\ a.iv0 = b.iv0 /\ a.bs = b.bs /\ EffDir(a) = EffDir(b)
-Exact(ob) == ob.mode \in {"cts", "padded"}     \* whole-message objects: no prefix structure
+Exact(ob) == ob.mode = "cts" \/ IsPadded(ob.mode)     \* whole-message objects: no prefix structure
 Run(ob)   == ~ob.moved /\ ~ob.off /\ ob.status # "failed"   \* inp/out are one contiguous in-domain run from the IV
 
 RoundTo(n, g) == (n \div g) * g
@@ -54,7 +54,8 @@ RoundTrip ==
   \A p \in Pairs : LET e == Ob(p[1])  d == Ob(p[2]) IN
     (Paired(e, d) /\ Run(e) /\ Run(d)) =>
       IF Exact(e) \/ Exact(d)
-      THEN (e.mode = d.mode /\ e.kind = d.kind /\ Len(e.out) > 0 /\ d.inp = e.out /\ d.status \in {"consumed", "dead"})
+      THEN (e.mode = d.mode /\ e.kind = d.kind /\ Len(e.out) > 0 /\ d.inp = e.out /\ d.status \in {"consumed", "dead"}
+              /\ e.mode # "padded:zero")      \* zero padding is not reversible (trailing zero bytes are lost)
              => d.out = e.inp
       ELSE LET g == Max(Grain(e.kind, e.bs), Grain(d.kind, d.bs))
                n == Min(RoundTo(CommonLen(d.inp, e.out), g), Len(d.out))
